@@ -118,7 +118,7 @@ def run_gen(targets):
     try:
         listed = [l.strip()[4:-2] for l in open(os.path.join(COQ, '_CoqProject')) if l.startswith('Gen/')]
         byfile = {'GenEncode': 'enc', 'GenFloat': 'float', 'GenLockWord': 'lock', 'GenQsbrState': 'qsbr', 'GenKeyPrefix': 'prefix', 'GenCompare': 'compare', 'GenSizes': 'sizes',
-                  'GenMutexMethods': 'mutex', 'GenPtrMethods': 'ptr', 'GenAsserts': 'asserts'}
+                  'GenMutexMethods': 'mutex', 'GenPtrMethods': 'ptr', 'GenAsserts': 'asserts', 'GenFaultShape': 'fault'}
         for f in listed:
             if not os.path.exists(os.path.join(COQ, 'Gen', f + '.v')) and byfile.get(f) and byfile[f] not in want:
                 want.append(byfile[f])
